@@ -53,9 +53,17 @@ class Builder(object):
         ref = self.ref
         name, ps = b["name"], list(b["p"])
 
+        def jet(r, n):
+            args = [Jet.var(r, n)] + [Jet.const(p, n) for p in ps]
+            return ref.custom_call(name, args, Trace())
+
         def custom_callable(r):
-            args = [Jet.var(r, 0)] + [Jet.const(p, 0) for p in ps]
-            return ref.custom_call(name, args, Trace()).v
+            return jet(r, 0).v
+        has = b.get("has", 0)
+        if has >= 1:
+            custom_callable.deriv = lambda r: jet(r, 1).d(1).v
+        if has >= 2:
+            custom_callable.deriv2 = lambda r: jet(r, 2).d(2).v
         return custom_callable
 
     def _table(self, name):
